@@ -330,12 +330,20 @@ step_sanitise_unjudged(vh_rng *rg, const char *ctx0)
     observe("after-unjudged-sanitise", ctx);
 }
 
+static long setup_curated = -1; /* >= 0: the next table is curated layout number setup_curated */
+
 static int
 setup_table(vh_rng *rg, int allow_fail, int all_writable)
 {
     vh_arena_reset();
     struct rt_desc d;
     do {
+        if (setup_curated >= 0 && rt_gen_curated(rg, (unsigned)setup_curated, &d, allow_fail)) {
+            setup_curated = -1;
+            VH_COUNT("curated layout");
+            if (d.nregs)
+                break;
+        }
         rt_gen_wellformed(rg, &d, allow_fail);
 #ifdef VH_FUZZ
         if (d.nregs == 0)
@@ -375,6 +383,9 @@ history_body(uint64_t idx, vh_rng *rgp)
 {
     vh_rng rg = *rgp;
     int allow_fail = (int)(idx & 1);
+#ifndef VH_FUZZ
+    setup_curated = idx < 2 * RT_NCURATED ? (long)(idx / 2) : -1;
+#endif
     if (!setup_table(&rg, allow_fail, 0))
         return;
     char ctx0[200];
